@@ -77,6 +77,14 @@ static Obj1 make_obj1(Rng& rng, int family)
 			o.pars	 = {e};
 			break;
 		}
+		case 7: {	// even multimodal objective about 0 (the centre is exactly 0 so that starting points -a, +a give bit-equal values): hump or dip at the centre
+			double b = rng.uni(0.2, 5.0) * rng.sign(), w = rng.loguni(1.0, 30.0), q = rng.coin() ? rng.uni(0.0, 0.2) : 0.0;
+			c		 = 0.0;
+			o.name	 = "even: q t^2 + b cos(w t) (t = x/s)";
+			o.f		 = [s, b, w, q](double x) { double t = x / s; return q * t * t + b * std::cos(w * t); };
+			o.pars	 = {b, w, q};
+			break;
+		}
 		default: {	 // |t|^p, p in [1,3]: kink or flat
 			double p = rng.uni(1.0, 3.0);
 			o.name	 = "|t|^p";
@@ -91,15 +99,34 @@ static Obj1 make_obj1(Rng& rng, int family)
 
 static void case_1d(Rng& rng, uint64_t)
 {
-	int family = rng.irange(0, 6);
+	int family = rng.irange(0, 7);
 	Obj1 o	   = make_obj1(rng, family);
 	double c   = o.pars[0], s = o.pars[1];
 	// start: offset from the centre up to 20 s (so that exp/cosh stay finite), step 1e-3..1e3 (relative to s), either direction
 	double off	= rng.sign() * s * rng.loguni(1e-3, 20.0);
 	double step = rng.sign() * s * rng.loguni(1e-3, 1e3);
 	if(family == 2 || family == 3)
+	{
 		step = rng.sign() * s * rng.loguni(1e-3, 20.0);
+		// "initial step sizes 1e-3..1e3": the second abscissa (and the bracketing search) then reaches arguments where exp/cosh overflow to +inf, a
+		// legitimate "worse than everything" value (seeded changes C11-r6m1/r6m3: 0*inf = NaN in Brent's parabolic step then became the next trial point)
+		// (cosh only: the Morse well is flat to rounding beyond 37 widths on its shallow side, so a search that steps over the well in strides of
+		// hundreds of widths legitimately ends on that plateau - the evaluated function is not unimodal there)
+		if(family == 2 && rng.coin(0.3))
+			step = rng.sign() * s * rng.loguni(20.0, 1e3);
+	}
+	// "from any starting point": a cosh bowl started hundreds of widths from its minimum, where its values are close to the overflow threshold
+	if(family == 2 && rng.coin(0.3))
+		off = rng.sign() * s * rng.uni(100.0, 709.0);
 	double xl = c + off, xr = xl + step;
+	if(family == 7)
+	{
+		// exactly symmetric starting points: f(xLeft) == f(xRight) bit for bit (seeded change C11-r6m2 took a tie for a bracket around the midpoint)
+		double a = s * (rng.coin() ? M_PI / o.pars[4] * rng.irange(1, 6) * rng.uni(0.9, 1.1) : rng.loguni(1e-2, 20.0));
+		xl = -a, xr = a;
+		if(rng.coin(0.2))
+			std::swap(xl, xr);
+	}
 	double tol = rng.loguni(1e-12, 1e-3);
 	auto cnt   = std::make_shared<long>(0);
 	auto f	   = o.f;
@@ -107,7 +134,8 @@ static void case_1d(Rng& rng, uint64_t)
 	set_params(J().str("objective", o.name).vec("pars", o.pars).d("xLeft", xl).d("xRight", xr).d("tol", tol));
 	hash_param(xl), hash_param(xr), hash_param(tol), hash_param_u(family);
 	double fl = o.f(xl), fr = o.f(xr);
-	if(!std::isfinite(fl) || !std::isfinite(fr))
+	// one of the two starting values may be +inf (overflow of exp/cosh); NaN or no finite value at all is outside the property
+	if(std::isnan(fl) || std::isnan(fr) || (!std::isfinite(fl) && !std::isfinite(fr)) || fl == -INFINITY || fr == -INFINITY)
 	{
 		count_outside("1d-descent");
 		return;
